@@ -1,4 +1,173 @@
+"""Counterexample hunt + native replay (DESIGN.md 2.4 steps 2-3).
+
+A job whose obligations were not proved is re-generated as a hunt crate. For float-bearing (e2) jobs the symbolic draws
+come from a dyadic grid + specials and f32 comparisons are made tolerant (relative 1e-5), so the solver has to produce a
+counterexample that is NOT a benign rounding difference; e1 jobs are hunted on the full domain with exact comparison.
+CBMC (CaDiCaL, --stop-on-fail --trace) produces an assignment; the values of every kani::any() draw are read out of the
+trace in call order and written, in Kani's concrete-playback format, into a stand-alone replay crate (concrete skeleton
+table instead of the FFI hook). `cargo kani playback` then executes the harness NATIVELY against the real rrtk build;
+only a natively failing replay is reported as a VIOLATION."""
+import json
+import os
+import re
+import shutil
+import time
+
+from . import core, driver
+
+TOL_SAME = '''pub fn same(a: f32, b: f32) -> bool {
+    if a.to_bits() == b.to_bits() || (a.is_nan() && b.is_nan()) || a == b { return true; }
+    if a.is_nan() || b.is_nan() || a.is_infinite() || b.is_infinite() { return false; }
+    let m = if a.abs() >= b.abs() { a.abs() } else { b.abs() };
+    (a - b).abs() <= 1.0e-5 * m
+}'''
+EXACT_SAME_RE = re.compile(r"pub fn same\(a: f32, b: f32\) -> bool \{\n.*?\n\}", re.S)
+
+
+def _crate_source(part, sk_impl, grid, tolerant, extra_test=None):
+    rust = part["rust"]
+    if extra_test:
+        k = rust.rstrip().rfind("}")
+        rust = rust[:k] + extra_test + "\n}\n"
+    lib = driver.prelude(sk_impl, grid=grid) + "\n" + rust
+    if tolerant:
+        lib, n = EXACT_SAME_RE.subn(lambda m: TOL_SAME, lib, count=1)
+        assert n == 1
+    return lib
+
+
+def extract_draws(trace):
+    """Values returned by kani::any_raw_* in call order, as little-endian byte lists (Kani's playback format)."""
+    vals = []
+    for st in trace:
+        if st.get("stepType") != "assignment":
+            continue
+        fn = st.get("sourceLocation", {}).get("function", "")
+        if not fn.startswith("kani::any_raw_") or st.get("lhs") != "var_0":
+            continue
+        v = st.get("value", {})
+        b = v.get("binary")
+        if b is None:
+            continue
+        nbytes = max(1, (len(b) + 7) // 8)
+        vals.append(list(int(b, 2).to_bytes(nbytes, "little")))
+    return vals
+
+
+def playback_test(harness_fn, vals):
+    rows = ",\n            ".join("vec![%s]" % ", ".join(map(str, v)) for v in vals)
+    return ('''
+    #[test]
+    fn kani_concrete_playback_%s() {
+        let concrete_vals: Vec<Vec<u8>> = vec![
+            %s
+        ];
+        kani::concrete_playback_run(concrete_vals, %s);
+    }''' % (harness_fn, rows, harness_fn))
+
+
 def hunt(crate, r, ctx):
-    return {"verdict": "inconclusive", "why": "hunt not implemented yet"}
+    part = crate.part
+    h = r.harness
+    modes = [("grid", True, True), ("full", False, False)] if h.engine == "e2" else [("full", False, False)]
+    budget = int(os.environ.get("VK_HUNT_BUDGET", "120" if ctx.quick else "600"))
+    why = []
+    pretty = crate.meta[h.name][3]
+    for label, grid, tol in modes:
+        hc = core.Crate(ctx.prop_id, "hunt_" + label, features=crate.features, extra_deps=crate.extra_deps)
+        hc.write(_crate_source(part, driver.SK_FFI, grid, tol), part.get("extra_files"))
+        jd = os.path.join(hc.dir, "job")
+        shutil.rmtree(jd, ignore_errors=True)
+        os.makedirs(jd)
+        try:
+            hc.codegen([pretty], stubbing=part.get("stubbing", False), exact=True)
+            goto = core.link_job(hc, h, r.skeleton, jd)
+            props = core.list_properties(goto, h)
+        except core.BuildError as e:
+            why.append("%s hunt build failed: %s" % (label, str(e)[-300:]))
+            continue
+        query, covers, allowed = core.classify(props, h)
+        cmd = ["cbmc"] + core.CBMC_FLAGS + list(h.extra_cbmc) + core.unwind_flags(h) + \
+              ["--sat-solver", "cadical", "--stop-on-fail", "--trace", "--json-ui"]
+        for p in query:
+            cmd += ["--property", p["name"]]
+        cmd.append(goto)
+        rc, out, secs = core.run(cmd, timeout=budget)
+        if rc == -9:
+            why.append("%s hunt timed out after %ds" % (label, budget))
+            continue
+        try:
+            data = json.loads(out)
+        except ValueError:
+            why.append("%s hunt: unparsable cbmc output" % label)
+            continue
+        hit = None
+        for item in data:
+            if isinstance(item, dict) and "trace" in item and item.get("status") == "failed":
+                hit = item
+                break
+        if hit is None:
+            st = [i.get("cProverStatus") for i in data if isinstance(i, dict) and "cProverStatus" in i]
+            why.append("%s hunt: no counterexample (cbmc %s in %.0fs)" % (label, st[0] if st else "?", secs))
+            continue
+        by_name = {p["name"]: p for p in query}
+        failed = [core._pdesc(by_name[hit["property"]]) if hit["property"] in by_name else hit["property"]]
+        vals = extract_draws(hit["trace"])
+        sk_impl = driver.sk_const(r.skeleton if r.skeleton is not None else ())
+        lib = _crate_source(part, sk_impl, grid, tol, extra_test=playback_test(h.name, vals))
+        rep_dir = save_replay(ctx.prop_id, r, hc, lib, label, failed, vals)
+        ok, rout = native_replay(rep_dir)
+        shutil.rmtree(jd, ignore_errors=True)
+        if ok:
+            return {"verdict": "violation", "replay": rep_dir, "failed": failed, "mode": label}
+        why.append("%s counterexample (%s) did not reproduce natively: %s" % (label, failed[0][:120], core._tail(rout, 4).replace("\n", " | ")))
+        shutil.rmtree(rep_dir, ignore_errors=True)
+    return {"verdict": "inconclusive", "why": "; ".join(why)}
+
+
+def save_replay(pid, r, hc, lib, label, failed, vals):
+    base = os.path.join(core.ROOT, "replays", pid)
+    os.makedirs(base, exist_ok=True)
+    name = re.sub(r"[^A-Za-z0-9_]", "_", r.key())
+    d = os.path.join(base, name)
+    shutil.rmtree(d, ignore_errors=True)
+    os.makedirs(os.path.join(d, "src"))
+    os.makedirs(os.path.join(d, ".cargo"))
+    toml = open(os.path.join(hc.dir, "Cargo.toml")).read().replace(hc.pkg, "vk_replay")
+    open(os.path.join(d, "Cargo.toml"), "w").write(toml)
+    open(os.path.join(d, ".cargo", "config.toml"), "w").write("[net]\noffline = true\n")
+    open(os.path.join(d, "src", "lib.rs"), "w").write(lib)
+    with open(os.path.join(d, "replay.json"), "w") as f:
+        json.dump({"property": pid, "job": r.key(), "harness": r.harness.name, "skeleton": r.skeleton, "mode": label,
+                   "failed_checks": failed, "kani_any_draws_le_bytes": vals,
+                   "how": "cargo kani playback -Z concrete-playback: native execution of the harness with the solver's values against /repo"}, f, indent=1)
+    return d
+
+
+def native_replay(rep_dir, timeout=900):
+    """Run the playback test natively (dev profile, the one Kani models). True = the test fails (reproduced)."""
+    lock = os.path.join(core.REPO, "Cargo.lock")
+    if os.path.exists(lock):
+        shutil.copy(lock, os.path.join(rep_dir, "Cargo.lock"))
+    env = dict(core.ENV, CARGO_TARGET_DIR=os.path.join(core.WORK, "target_replay"))
+    rc, out, _ = core.run(["cargo", "kani", "playback", "-Z", "concrete-playback", "--", "kani_concrete_playback"],
+                          timeout=timeout, cwd=rep_dir, limit=False, env=env)
+    reproduced = rc != 0 and "test result: FAILED" in out and "kani_concrete_playback" in out
+    try:
+        os.remove(os.path.join(rep_dir, "Cargo.lock"))
+    except OSError:
+        pass
+    return reproduced, out
+
+
 def replay_cmd(pid, path):
-    return 2
+    if not os.path.isdir(path):
+        print("replay path not found: " + path)
+        return 2
+    ok, out = native_replay(path)
+    print(core._tail(out, 25))
+    if ok:
+        print("VIOLATION property=%s replay=%s" % (pid, path))
+        return 1
+    print("replay does not fail on the current tree")
+    return 0
